@@ -62,7 +62,8 @@ Print Assumptions C03_nothing_after_last_close.
 
 (** After any program, an operation ON spans that are all disabled (inner = None) or belong to no collector appends
     no collector call (only the harness' own markers).  [on_unlogged] covers clone, drop, enter, guard drop, entered,
-    exit, in_scope begin / end, record, follows_from, instrument, poll begin / end, into_inner. *)
+    exit, in_scope begin / end, record chains, follows_from, the pure accessors, instrument, with_collector, poll begin /
+    end, into_inner, the inner-future accessors, Clone for Instrumented and swapping through span_mut. *)
 Theorem C03_disabled_silent : forall p x, WFprog (p ++ [x]) ->
   exists s s', run p = Some s /\ run (p ++ [x]) = Some s' /\
     (on_unlogged s x = true -> quiet (d_log (snd s)) (d_log (snd s'))).
@@ -76,9 +77,10 @@ Theorem C03_disabled_branch_silent : forall s t n par s',
 Proof. exact disabled_branch_silent. Qed.
 Print Assumptions C03_disabled_branch_silent.
 
-(** What an Instrumented future contributes (logs are newest first): poll = enter, body ... ; dropping it = enter,
-    the inner future's drop, exit, then the span handle's try_close; into_inner = try_close, inner returned. *)
-Theorem C03_instrumented : forall s t f s', is_fut (fst s) f = true ->
+(** What an Instrumented future (WithDispatch-wrapped or not) contributes (logs are newest first): poll = enter, body
+    ... ; dropping it = enter, the inner future's drop, exit, then the span handle's try_close; into_inner = try_close,
+    inner returned. *)
+Theorem C03_instrumented : forall s t f s', is_anyfut (fst s) f = true ->
   let v := val_of (snd s) f in
   (step s (t, PollBegin f) = Some s' ->
      d_log (snd s') = EMark t (MBody f) :: enter_entries v t ++ d_log (snd s)) /\
@@ -94,6 +96,33 @@ Theorem C03_instrumented_poll_end : forall s t r s', step s (t, PollEnd r) = Som
             d_log (snd s') = exit_entries (val_of (snd s) (e_holder e)) t ++ d_log (snd s).
 Proof. exact instrumented_poll_end. Qed.
 Print Assumptions C03_instrumented_poll_end.
+
+(** Polling a WithDispatch-wrapped future (either nesting order): while the body runs the thread's default is the
+    wrapper's Dispatch, yet the span is entered and exited at its own collector; afterwards the previous default is back. *)
+Theorem C03_with_dispatch : forall s t f b s', kind_of (fst s) f = Some (KFutW b) ->
+  step s (t, PollBegin f) = Some s' ->
+  d_log (snd s') = EMark t (MBody f) :: enter_entries (val_of (snd s) f) t ++ d_log (snd s) /\
+  cur_default (snd s') t = disp_of (snd s) f /\
+  kind_of (fst s') f = Some (KFutW b) /\
+  forall r s'', step s' (t, PollEnd r) = Some s'' ->
+    d_log (snd s'') = exit_entries (val_of (snd s) f) t ++ d_log (snd s') /\
+    cur_default (snd s'') t = cur_default (snd s) t.
+Proof. exact with_dispatch_step. Qed.
+Print Assumptions C03_with_dispatch.
+
+(** is_none / is_disabled / id / metadata, follows_from(None), record on fields the span does not have: nothing happens at
+    all; inner / inner_mut / inner_pin_ref / inner_pin_mut of an Instrumented: the inner future is reached WITHOUT entering
+    the span; mem::swap through span_mut: no call, the two Span values change places (so the counting theorems above
+    keep holding for programs that re-seat the span of a future). *)
+Theorem C03_accessors_silent : forall s t s',
+  (forall r q, step s (t, Query r q) = Some s' -> s' = s) /\
+  (forall r, step s (t, FollowsFrom r FNone) = Some s' -> s' = s) /\
+  (forall r ks, forallb negb ks = true -> step s (t, Record r ks) = Some s' -> s' = s) /\
+  (forall f k, step s (t, InnerAccess f k) = Some s' -> d_log (snd s') = EMark t (MInnerTouch f) :: d_log (snd s)) /\
+  (forall f n, step s (t, SpanMutSwap f n) = Some s' ->
+     d_log (snd s') = d_log (snd s) /\ val_of (snd s') f = val_of (snd s) n /\ val_of (snd s') n = val_of (snd s) f).
+Proof. exact accessors_silent. Qed.
+Print Assumptions C03_accessors_silent.
 
 (** The static predicate is exactly "the program runs": it reads no span value, default collector or log. *)
 Theorem C03_wf_static : forall p, WFprog p <-> exists s, run p = Some s.
@@ -114,3 +143,16 @@ Theorem C03_nonvacuous :
    wf_prog [(0, New 0 Direct PRoot); (0, Enter 0 0); (1, DropGuard 0)] = false).
 Proof. exact (conj demo_wf (conj demo_trace (conj demo_disabled_step demo_illformed))). Qed.
 Print Assumptions C03_nonvacuous.
+
+(** Non-vacuity of the extended op language: child_of(None) / child_of(id), a record chain with a missing field,
+    follows_from(id) / follows_from(None), both WithDispatch nestings polled under a foreign default, Span::current inside
+    them, inner_mut, Clone for Instrumented, span_mut swap, entered on the result, into_inner. *)
+Theorem C03_nonvacuous_ext :
+  WFprog p_demo2 /\
+  length (trace p_demo2) = 31%nat /\
+  cnt TNew (3, 2) (trace p_demo2) = 1%nat /\ cnt_at TEnter (1, 1) 1 (trace p_demo2) = 1%nat /\
+  cnt_at TExit (1, 1) 1 (trace p_demo2) = 1%nat /\
+  cnt TClone (2, 1) (trace p_demo2) = 2%nat /\ cnt TClose (2, 1) (trace p_demo2) = 3%nat /\
+  cnt TRecord (2, 1) (trace p_demo2) = 2%nat /\ cnt TFollows (2, 1) (trace p_demo2) = 1%nat.
+Proof. exact (conj demo2_wf demo2_trace). Qed.
+Print Assumptions C03_nonvacuous_ext.
